@@ -9,6 +9,7 @@ import Driver.Expr
 import Ink.Explore
 import Ink.RefCheck
 import Driver.Cli
+import Driver.SourceMain
 
 open Ink
 
@@ -102,6 +103,7 @@ def main (args : List String) : IO UInt32 := do
   | ["audit", path] => auditCmd path; pure 0
   | ["expr", path] => exprCmd path; pure 0
   | ["refcheck", path] => refcheckCmd path; pure 0
+  | ["source", path] => sourceCmd path; pure 0
   | ["f32", path] => f32Cmd path; pure 0
   | ["cli", path, mode, keep, inputs] => cliCmd path mode keep inputs; pure 0
   | "explore" :: path :: depth :: shuffle :: names => exploreCmd path depth.toNat! (shuffle == "shuffle") names; pure 0
